@@ -25,7 +25,7 @@ UNIT = {
         'MarkEvent': {'src': {'file': M, 'kind': 'enum', 'name': 'MarkEvent'}},
     },
     'allow': [],            # no assume / admit / external_body / uninterp / axiom anywhere in this unit
-    'min_obligations': 19,     # 10 proof fns + 9 termination checks of recursive spec fns (eaten x2, scan_* x3, walk, ab_starts_rev, sim, concat_slices)
+    'min_obligations': 21,     # 12 proof fns + 9 termination checks of recursive spec fns (eaten x2, scan_* x3, walk, ab_starts_rev, sim, concat_slices)
     'trusted': [
         'the theorem is a statement about the CONTRACTS of the three units: its hypotheses H-L1, H-L2, H-L3 are the (proved) top-level contracts of '
         'c01_reader / c01_parser / c01_green, taken as implications; that the values `toks`, `events`, `leaves` are the ones flowing through '
@@ -47,6 +47,8 @@ UNIT = {
         'G1 tiled(toks, b, 0, n) && toks.len() < 2^31-1  ==>  tokens_ok(toks)',
         'G2 emits(eaten(events), ranges(toks), doc) && tiled(..)  ==>  chain(eaten(events), 0, n) and (non-doc, or doc + starts on char boundaries) ranges_ok(text, eaten(events))',
         'G3 leaves == eaten(events) && chain(eaten(events), 0, n)  ==>  concat_slices(b, leaves) == b',
+        'G4 (C02) no_soft_kinds(toks) [c01_reader: LuaLexer::tokenize]  ==>  nosoft_at(toks, 0) [precondition nosoft of parse_chunk in the grammar units]; '
+        'with tiled + the token bound also tokens_ok(toks): the whole token-stream precondition of parse_chunk (predicates: units/c02_grammar/nosoft_iface.rs, the same file c01_reader and gspec.rs include)',
         'theorem_lossless: G1, G2, G3 chained; events_ok(events) derived from the c01_parser exit contract (H-L2ev) via G1; every remaining hypothesis explicit',
     ],
     'mutants': [],          # nothing extracted but type definitions; negative lemmas are listed in the unit report instead
